@@ -141,6 +141,23 @@ func (d *actorDriver) List() []metav1.Object {
 			panic("GetObject disagrees with Get")
 		}
 	}
+	// ... and Get of every other key of the small universe (the empty namespace
+	// included) finds nothing: an object is returned under its own key only
+	held := map[[2]string]bool{}
+	for _, o := range l {
+		held[[2]string{o.GetNamespace(), o.GetName()}] = true
+	}
+	for ns := 0; ns <= 2; ns++ {
+		for nm := 0; nm <= 3; nm++ {
+			k := [2]string{Str(ns), Str(nm)}
+			if held[k] {
+				continue
+			}
+			if g, err := d.a.Reader().Get(k[0], k[1]); err != nil || g != nil {
+				panic(fmt.Sprintf("Get(%q, %q) returns an object although List holds none under that key", k[0], k[1]))
+			}
+		}
+	}
 	return l
 }
 func (d *actorDriver) close() { d.cancel(); <-d.a.Done() }
